@@ -112,6 +112,7 @@ fn mutate(rng: &mut Rng, b: &[u8], out: &mut Out) -> Vec<u8> {
 }
 
 fn real_walop_de(bytes: &[u8], out: &mut Out) -> String {
+    out.about_to(&format!("walop_de {}", hx(bytes)));
     let (r, peak, largest) = measure(|| verif::deserialize_wal_op_raw(bytes));
     // C16: never allocates more than the size of its input (plus Vec growth slack: a Vec of
     // `n` keys doubles, so allow 2x the 24-byte headers; bounded by a small linear function)
@@ -126,6 +127,7 @@ fn real_walop_de(bytes: &[u8], out: &mut Out) -> String {
 }
 
 fn real_index_de(bytes: &[u8], out: &mut Out) -> String {
+    out.about_to(&format!("index_de {}", hx(bytes)));
     let (r, peak, largest) = measure(|| verif::deserialize_index_state(bytes));
     let bound = 4 * bytes.len() + 1024;
     if peak > bound {
@@ -290,6 +292,7 @@ fn frame_roundtrip(rng: &mut Rng, work: &Path, out: &mut Out) {
 }
 
 fn real_frame_read(work: &Path, bytes: &[u8]) -> String {
+    if let Ok(p) = std::env::var("CVH_JOURNAL") { let _ = std::fs::write(p, format!("frame_read {}", hx(bytes))); }
     std::fs::write(seg_path(work, 7), bytes).expect("write segment");
     let r = verif::read_segment_file(work, 7);
     let mut parts: Vec<String> = r.entries.iter().map(|(v, d)| format!("{}:{}", v, hx(d))).collect();
@@ -314,7 +317,10 @@ pub fn c10_frame(rng: &mut Rng, n: u64, work: &Path, out: &mut Out) {
         let mut ver = rng.range(1, 50);
         for _ in 0..nrec {
             let plen = if case % 7 == 0 { rng.range(8100, 8300) as usize } else { rng.range(1, 24) as usize };
-            entries.push((ver, rng.bytes(plen)));
+            // sometimes the same payload as the record before (an unchanged re-put logs identical ops)
+            let prev: Option<Vec<u8>> = entries.last().map(|e: &(u64, Vec<u8>)| e.1.clone());
+            let payload = match prev { Some(p) if rng.chance(1, 4) => p, _ => rng.bytes(plen) };
+            entries.push((ver, payload));
             ver += rng.range(1, 3);
         }
         let seal = rng.chance(1, 3);
